@@ -2387,9 +2387,15 @@ class Executor(object):
         ordn = self.loop_ordinal(fn, stmt)
         linv = self.reg.loop_inv(fn.key, ordn)
         where = '%s:%d' % (fn.key, stmt.lineno)
+        if isinstance(stmt, ast.For) and isinstance(stmt.target, ast.Name) and self.reg.loop_inv(fn.key, 'var:' + stmt.target.id) is not None:
+            # a loop contract keyed by the loop variable (`loops={'var:y': ...}`) instead of the position of the loop in the
+            # function: an edit that adds or removes another loop in front of it does not detach the contract (the obligation
+            # ids carry the variable name, so they stay comparable between versions of the function)
+            linv = self.reg.loop_inv(fn.key, 'var:' + stmt.target.id)
+            ordn = '_' + stmt.target.id
         if linv is None:
-            raise Unsupported('loop %d of %s (line %d) needs an invariant in the sidecar' % (ordn, fn.key, stmt.lineno))
-        tag = '%s.loop%d' % (fn.qualname, ordn)
+            raise Unsupported('loop %s of %s (line %d) needs an invariant in the sidecar' % (ordn, fn.key, stmt.lineno))
+        tag = '%s.loop%s' % (fn.qualname, ordn)
         invs = linv.get('inv', [])
         is_for = isinstance(stmt, ast.For)
         body_stmts = list(stmt.body) + ([stmt.test] if not is_for else [])
@@ -2435,7 +2441,7 @@ class Executor(object):
                     if isinstance(s.env[n], VNone):
                         # None before the loop says nothing about what the loop assigns: without a declared type the
                         # variable would stay None in the generic iteration (found by seeded change C15c)
-                        raise Unsupported('loop variable %r is None before loop %d of %s and assigned inside: declare its type '
+                        raise Unsupported('loop variable %r is None before loop %s of %s and assigned inside: declare its type '
                                           'in the loop contract (types={%r: ...})' % (n, ordn, fn.key, n))
                     s.env[n] = self.fresh(s, self.shape_type(s, s.env[n]), n)
                 else:
@@ -2484,7 +2490,7 @@ class Executor(object):
             sp = s.fork()
             sp.spec = True
             sp.env['_k'] = VInt(kval)
-            sp.env['_k%d' % ordn] = VInt(kval)
+            sp.env['_k%s' % ordn] = VInt(kval)
             if sq is not None:
                 sp.env['_seq'] = sq
             sp.env['_y0'] = y0 if y0 is not None else NONE
@@ -2498,7 +2504,7 @@ class Executor(object):
             sp = s.fork()
             sp.spec = True
             sp.env['_k'] = VInt(kval)
-            sp.env['_k%d' % ordn] = VInt(kval)
+            sp.env['_k%s' % ordn] = VInt(kval)
             if sq is not None:
                 sp.env['_seq'] = sq
             sp.env['_y0'] = y0 if y0 is not None else NONE
@@ -2510,7 +2516,7 @@ class Executor(object):
 
         # ---- an arbitrary iteration
         it = hv.fork()
-        it.env['_k%d' % ordn] = VInt(k)
+        it.env['_k%s' % ordn] = VInt(k)
         assume_inv(it, k)
         starts = []
         if is_for:
